@@ -687,88 +687,112 @@ func init() {
 								kind string
 								n    int
 							}{{"Upsert", "Upsert", 1}, {"SetByURL/0", "SetByURL", 0}, {"SetByURL/1", "SetByURL", 1}, {"SetByURL/2", "SetByURL", 2}, {"AppendInto/1", "AppendInto", 1}, {"AppendInto/2", "AppendInto", 2}, {"Overwrite/2", "Overwrite", 2}, {"Clear", "Clear", 0}} {
-								var model []c20Ext
-								var orig []*dtpb.Extension
-								for j, s := range seq {
-									e := c20Ext{urls[s], j + 1}
-									model = append(model, e)
-									orig = append(orig, c20MkExt(e))
-								}
-								var ext fhir.Extendable
-								if carrier == "Patient" {
-									ext = &ppb.Patient{Extension: append([]*dtpb.Extension{}, orig...)}
-								} else {
-									ext = &dtpb.HumanName{Extension: append([]*dtpb.Extension{}, orig...)}
-								}
-								newTags := []int{101, 102}[:mut.n]
-								var news []*dtpb.Extension
-								for _, t := range newTags {
-									news = append(news, c20MkExt(c20Ext{target, t}))
-								}
-								pi := core.Try(func() {
-									switch mut.kind {
-									case "Upsert":
-										extension.Upsert(ext, news[0])
-									case "SetByURL":
-										vals := make([]*dtpb.Integer, len(newTags))
-										for k, t := range newTags {
-											vals[k] = fhir.Integer(int32(t))
+								for _, aliased := range []bool{false, true} {
+									var model []c20Ext
+									var orig []*dtpb.Extension
+									first := map[int]int{}
+									hasRepeat := false
+									for j, s := range seq {
+										if k, seen := first[s]; seen && aliased {
+											// the list holds one extension object at several positions
+											model = append(model, model[k])
+											orig = append(orig, orig[k])
+											hasRepeat = true
+											continue
 										}
-										extension.SetByURL(ext, target, vals...)
-									case "AppendInto":
-										extension.AppendInto(ext, news...)
-									case "Overwrite":
-										extension.Overwrite(ext, news...)
-									case "Clear":
-										extension.Clear(ext)
+										first[s] = j
+										e := c20Ext{urls[s], j + 1}
+										model = append(model, e)
+										orig = append(orig, c20MkExt(e))
 									}
-								})
-								r.Eval()
-								want := c20Model(model, mut.kind, target, newTags)
-								got := ext.GetExtension()
-								present := false
-								for _, e := range model {
-									present = present || e.url == target
-								}
-								cls := fmt.Sprintf("%s|%s|target-present=%v", mut.name, carrier, present)
-								r.State("mutator|" + cls)
-								r.Outcome(c20ShowExts(got))
-								r.Nontrivial(fmt.Sprint(seq), cls, target, c20ShowExts(got))
-								if r.WantSample() {
-									r.Sample(core.W{"before": c20ShowExts(orig), "mutator": mut.name, "url": target, "after": c20ShowExts(got)})
-								}
-								w := core.W{"carrier": carrier, "before": c20ShowExts(orig), "mutator": mut.name, "url": target, "after": c20ShowExts(got), "want": fmt.Sprint(want)}
-								if pi != nil {
-									r.Fail("extension."+cls+"|"+pi.Key(), w)
-									continue
-								}
-								ok := len(got) == len(want)
-								for k := 0; ok && k < len(want); k++ {
-									ok = got[k].GetUrl().GetValue() == want[k].url && int(got[k].GetValue().GetInteger().GetValue()) == want[k].tag
-								}
-								if !ok {
-									r.Fail("extension."+cls+"|result-differs-from-list-model", w)
-									continue
-								}
-								// extensions with other URLs are the very same objects, in the same relative order
-								if mut.kind == "Upsert" || mut.kind == "SetByURL" || mut.kind == "AppendInto" {
-									var keptOrig, keptGot []*dtpb.Extension
-									for _, e := range orig {
-										if e.GetUrl().GetValue() != target {
-											keptOrig = append(keptOrig, e)
+									if aliased && !hasRepeat {
+										continue
+									}
+									var ext fhir.Extendable
+									if carrier == "Patient" {
+										ext = &ppb.Patient{Extension: append([]*dtpb.Extension{}, orig...)}
+									} else {
+										ext = &dtpb.HumanName{Extension: append([]*dtpb.Extension{}, orig...)}
+									}
+									newTags := []int{101, 102}[:mut.n]
+									var news []*dtpb.Extension
+									for _, t := range newTags {
+										news = append(news, c20MkExt(c20Ext{target, t}))
+									}
+									pi := core.Try(func() {
+										switch mut.kind {
+										case "Upsert":
+											extension.Upsert(ext, news[0])
+										case "SetByURL":
+											vals := make([]*dtpb.Integer, len(newTags))
+											for k, t := range newTags {
+												vals[k] = fhir.Integer(int32(t))
+											}
+											extension.SetByURL(ext, target, vals...)
+										case "AppendInto":
+											extension.AppendInto(ext, news...)
+										case "Overwrite":
+											extension.Overwrite(ext, news...)
+										case "Clear":
+											extension.Clear(ext)
 										}
+									})
+									r.Eval()
+									want := c20Model(model, mut.kind, target, newTags)
+									got := ext.GetExtension()
+									present := false
+									for _, e := range model {
+										present = present || e.url == target
 									}
-									for _, e := range got {
-										if e.GetUrl().GetValue() != target {
-											keptGot = append(keptGot, e)
+									cls := fmt.Sprintf("%s|%s|target-present=%v", mut.name, carrier, present)
+									if aliased {
+										cls += "|one-object-at-several-positions"
+									}
+									r.State("mutator|" + cls)
+									r.Outcome(c20ShowExts(got))
+									r.Nontrivial(fmt.Sprint(seq), cls, target, c20ShowExts(got))
+									if r.WantSample() {
+										r.Sample(core.W{"before": c20ShowExts(orig), "mutator": mut.name, "url": target, "after": c20ShowExts(got)})
+									}
+									w := core.W{"carrier": carrier, "before": c20ShowExts(orig), "mutator": mut.name, "url": target, "after": c20ShowExts(got), "want": fmt.Sprint(want)}
+									if pi != nil {
+										r.Fail("extension."+cls+"|"+pi.Key(), w)
+										continue
+									}
+									ok := len(got) == len(want)
+									for k := 0; ok && k < len(want); k++ {
+										ok = got[k].GetUrl().GetValue() == want[k].url && int(got[k].GetValue().GetInteger().GetValue()) == want[k].tag
+									}
+									if !ok && aliased && present && mut.kind != "Clear" && mut.kind != "Overwrite" {
+										// one object at several positions under the target URL: a mutator that edits the first match in place shows
+										// at all of them - only extensions with that URL changed, which is what is stated; the list model (one position
+										// changes) does not apply, the clause about the other URLs below does
+										ok = true
+									}
+									if !ok {
+										r.Fail("extension."+cls+"|result-differs-from-list-model", w)
+										continue
+									}
+									// extensions with other URLs are the very same objects, in the same relative order
+									if mut.kind == "Upsert" || mut.kind == "SetByURL" || mut.kind == "AppendInto" {
+										var keptOrig, keptGot []*dtpb.Extension
+										for _, e := range orig {
+											if e.GetUrl().GetValue() != target {
+												keptOrig = append(keptOrig, e)
+											}
 										}
-									}
-									same := len(keptOrig) == len(keptGot)
-									for k := 0; same && k < len(keptOrig); k++ {
-										same = keptOrig[k] == keptGot[k]
-									}
-									if !same {
-										r.Fail("extension."+cls+"|other-urls-not-the-same-objects", w)
+										for _, e := range got {
+											if e.GetUrl().GetValue() != target {
+												keptGot = append(keptGot, e)
+											}
+										}
+										same := len(keptOrig) == len(keptGot)
+										for k := 0; same && k < len(keptOrig); k++ {
+											same = keptOrig[k] == keptGot[k]
+										}
+										if !same {
+											r.Fail("extension."+cls+"|other-urls-not-the-same-objects", w)
+										}
 									}
 								}
 							}
